@@ -115,7 +115,10 @@ def prop(case):
         # fermion/sfermion parts and the ratio of the total reaches 0.385 on correct code; the two-sided window is
         # therefore applied to the total only where it is at least half of the sum of |parts|)
         thr = 0.5 if name == "amu2L" else 0.1
-        dominant = all(abs(r[name]) >= thr * sum(abs(r[q]) for q in PARTS) for r in rs)
+        # the two-sided window is the property's statement about the two-loop contribution as a whole; a single part
+        # carries its own logarithms (stop loops: log^2; ratios 0.1198 ... 0.364 seen on correct code, and a window wide
+        # enough for that no longer tells 1/k or 1/k^3 from 1/k^2), so parts are held to the envelope only
+        dominant = name == "amu2L" and all(abs(r[name]) >= thr * sum(abs(r[q]) for q in PARTS) for r in rs)
         if dominant:
             ok = True
             for i in range(len(KS) - 1):
